@@ -11,6 +11,7 @@ package main
 // predicate abstraction which the code under analysis defines itself.
 
 import (
+	"strings"
 	"fmt"
 	"go/constant"
 	"go/token"
@@ -361,6 +362,33 @@ func (r *Run) step(i ssa.Instruction, prev *ssa.BasicBlock) {
 				} else {
 					set(AV{K: avLen, S: a.S})
 				}
+				return
+			}
+		}
+		/* cmp.Or(a, b, ...): the first operand which is not the zero value.
+		Not nil as soon as any operand is known not to be; nil when all are
+		known to be. */
+		if n := calleeName(x.Common()); "cmp.Or" == n || strings.HasPrefix(n, "cmp.Or[") {
+			allNil, anyNonNil := true, false
+			for _, a := range append(callArgs(x.Common()), variadicElems(x.Common())...) {
+				if _, isSlice := a.Type().Underlying().(*types.Slice); isSlice {
+					continue /* the variadic slice itself */
+				}
+				av := r.Eval(a)
+				switch {
+				case avNil == av.K && av.B:
+				case avNil == av.K:
+					allNil, anyNonNil = false, true
+				default:
+					allNil = false
+				}
+			}
+			switch {
+			case anyNonNil:
+				set(avNonNil)
+				return
+			case allNil:
+				set(avNilV)
 				return
 			}
 		}
